@@ -36,6 +36,10 @@ def updateSelectedAux {α β : Type} (pred : β → Bool) (f : Nat → α → α
 def updateSelected {α β : Type} (v : List α) (y : List β) (pred : β → Bool) (f : Nat → α → α) : List α :=
   updateSelectedAux pred f v y 0
 
+/-- `HashMap::extend` on association lists: entries of `b` replace the entries of `a` with the same key -/
+def mapExtend {α : Type} (a b : List (String × α)) : List (String × α) :=
+  a.filter (fun p => !(b.any (·.1 == p.1))) ++ b
+
 /-- `x.powi(n)` for a non-negative exponent -/
 def powi {R : Type} [One R] [Mul R] (x : R) : Nat → R
   | 0 => 1
